@@ -6,6 +6,9 @@ package c11
 //   - close-reopen:  Open, Selected, Close, Open(background) while the peer is down;
 //   - failed-open:   Open(wait for Selected) fails against a refusing peer (the Open is rolled back),
 //                    then Open(background) while the peer is still down;
+//   - close-in-dial: Selected; the link is reset and N dials are refused; the application calls Close while
+//                    the next dial — which succeeds — is completing (the dialing goroutine is withheld with
+//                    the new connection in hand): nothing may be attempted, adopted or counted after Close.
 //   - wedged-drop:   Selected; the peer sends a primary whose handler blocks for longer than the close
 //                    timeout and then resets the link: the teardown of the lost generation times out
 //                    — the connection is still open and must keep dialing.
@@ -29,10 +32,11 @@ const (
 	hCloseReopen = iota
 	hFailedOpen
 	hWedgedDrop
+	hCloseInDial
 	nHistories
 )
 
-var historyNames = []string{"close-reopen", "failed-open-then-background", "wedged-handler-drop"}
+var historyNames = []string{"close-reopen", "failed-open-then-background", "wedged-handler-drop", "close-while-a-re-dial-completes"}
 
 type reopenScn struct {
 	History int
@@ -56,6 +60,9 @@ type reopen struct {
 	phase    int
 	finished bool
 	script   string
+	// close-while-a-re-dial-completes
+	closeAt, closeRetAt time.Duration
+	reconnAtClose       uint64
 }
 
 func buildReopen() core.BuildFunc {
@@ -96,6 +103,18 @@ func buildReopen() core.BuildFunc {
 			}
 			if s.downAt >= 0 && s.upAt < 0 {
 				s.upAt = w.Now()
+				if sc.History == hCloseInDial {
+					w.HoldAt["net.Dial.ret"] = 30 * time.Millisecond
+					w.After(5*time.Millisecond, "app-close-into-the-dial", func() {
+						w.Go("closer", func() {
+							s.closeAt = w.Now()
+							w.Fault("app-close")
+							_ = r.C.Close()
+							s.closeRetAt = w.Now()
+							s.reconnAtClose = r.C.Metrics().Reconnects()
+						})
+					})
+				}
 			}
 			s.okDials++
 
@@ -190,6 +209,31 @@ func (s *reopen) app() {
 
 			return
 		}
+	case hCloseInDial:
+		if err := C.Open(context.Background(), hsms.OpenBackground); err != nil {
+			fail("HARNESS", "first Open: %v", err)
+
+			return
+		}
+		if !s.waitSelected(5*time.Second) || s.trip() != nil {
+			fail("HARNESS", "no first session")
+
+			return
+		}
+		c := s.conns[len(s.conns)-1]
+		s.refuse, s.downAt = sc.N, w.Now()
+		s.script = "Close called while the re-dial that finds the peer again is completing"
+		w.Fault("rst")
+		s.cutConn[c] = true
+		c.L.RST()
+		// wait for the Close (issued from the dial plan) and then watch the closed connection
+		for i := 0; i < 5000 && s.closeRetAt == 0 && !s.stop; i++ {
+			core.Sleep(2 * time.Millisecond)
+		}
+		core.Sleep(2*sc.T5 + 200*time.Millisecond)
+		s.finished = true
+
+		return
 	case hWedgedDrop:
 		if err := C.Open(context.Background(), hsms.OpenBackground); err != nil {
 			fail("HARNESS", "first Open: %v", err)
@@ -237,6 +281,40 @@ func (s *reopen) final(reason string, bound time.Duration) {
 		if s.downAt >= 0 && d >= s.downAt {
 			after = append(after, d)
 		}
+	}
+	if sc.History == hCloseInDial {
+		if s.closeRetAt == 0 {
+			w.Fail("BLOCKED", "%s: Close never returned (called at %v)", s.script, s.closeAt)
+
+			return
+		}
+		for _, d := range s.dials {
+			if d > s.closeRetAt {
+				w.Fail("AFTER_CLOSE", "%s: a dial attempt at %v, after Close had returned at %v", s.script, d, s.closeRetAt)
+
+				return
+			}
+		}
+		for i, c := range s.conns {
+			if c.L.A.ClosedAt < 0 {
+				w.Fail("AFTER_CLOSE", "%s: connection #%d, whose dial completed while Close (called %v, returned %v) was in progress, is still held open by the library at %v — adopted by a connection that is closed", s.script, i+1, s.closeAt, s.closeRetAt, w.Now())
+
+				return
+			}
+		}
+		if got := s.r.C.Metrics().Reconnects(); got != s.reconnAtClose || got > 1 {
+			w.Fail("RECONNECTS", "%s: Reconnects() was %d when Close returned and is %d now; nothing reconnects after Close", s.script, s.reconnAtClose, got)
+
+			return
+		}
+		if st := s.r.C.State(); st != hsms.NotConnectedState {
+			w.Fail("AFTER_CLOSE", "%s: State() = %v after Close", s.script, st)
+
+			return
+		}
+		w.Probe("closed_cleanly_while_a_re_dial_completed")
+
+		return
 	}
 	if !s.finished {
 		w.Fail("NO_RECOVERY", "%s: no working Selected session within %v of the peer becoming unreachable at %v (state %v; %d dial attempts since, at %v; %d refusals were planned, the peer accepts every dial after them): the connection stopped trying",
